@@ -39,11 +39,54 @@ CLAIMS.update({
                     "the remaining String operations are not yet under contract: partial.",
             "note": COMMON_NOTE + " malloc/free: CBMC's model with --malloc-may-fail --malloc-fail-null; memcpy/memset: byte-loop stubs."},
 })
+CLAIMS.update({
+    "C03": {"category": "model_checking",
+            "text": "CodeHolder::bind_label is verified against: same-section references get the displacement label - site + rel written into exactly their field (through the proved write_offset "
+                    "contract), other-section references are kept and tagged, relocation-carrying fixups rebase their payload exactly once, unrepresentable displacements return "
+                    "kInvalidDisplacement and stay counted, the unresolved counter drops by exactly the resolved ones, invalid label/section/double bind are rejected without change. The offset "
+                    "codecs it relies on (encode_offset32/64, write_offset) are proved for all inputs. Bounded: 1 label, <= 2 pending fixups, 2 sections, 1 relocation. Partial: the reference sites "
+                    "inside the assemblers' _emit (which compute rel and choose the format), new_fixup and resolve_cross_section_fixups are not under contract.",
+            "note": COMMON_NOTE},
+    "C04": {"category": "model_checking",
+            "text": "CodeHolder::relocate_to_base is verified per relocation entry: kAbsToAbs / kRelToAbs / kAbsToRel / kX64AddressEntry(rel32-reachable) patch exactly the value their type prescribes "
+                    "for the base (incl. 32-bit wrap vs. 64-bit range error), entries leaving their section are rejected before any write, unrepresentable values are errors, only the field changes; "
+                    "the write itself is the proved write_offset contract. Bounded: <= 1 entry, 2 sections, no address-table section, no expression entries. Partial: address table, JitRuntime::_add, "
+                    "the emit-time paths that create entries.",
+            "note": COMMON_NOTE},
+    "C19": {"category": "model_checking",
+            "text": "ConstPool::add is verified against: returned offsets aligned to the constant's size and inside the pool, the pool only grows, pool alignment covers every constant, a new slot comes "
+                    "from free space (a registered gap or beyond the old end) and the remaining registered gaps stay well-formed and disjoint from it, a dedup hit returns the existing offset "
+                    "unchanged, invalid sizes are rejected without change, allocation failure is kOutOfMemory and never a NULL dereference. The red-black tree and arena are abstracted by ASSUMED "
+                    "contracts. Bounded gap lists; quick explores constant sizes <= 8, thorough all sizes. Partial: fill(), tree internals.",
+            "note": COMMON_NOTE + " Tree::get/insert/new_node_t and Arena::alloc_oneshot<Gap> are assumed contracts (trusted abstraction)."},
+    "C01": {"category": "proof",
+            "text": "Only the x86 byte-emission leaves are under contract: emit_immediate / emit_imm_byte_or_dword write exactly the requested number of little-endian bytes and advance the cursor by "
+                    "it, emit_pp / emit_segment_override emit the architectural prefix byte or nothing (at most one scratch byte at the cursor). These are complete proofs of those helpers. The "
+                    "property as a whole (every instruction form decodes back) is NOT decided: Assembler::_emit's dispatch, REX/VEX/EVEX synthesis, ModRM/SIB and the instruction tables are outside "
+                    "the reach of this technique here (DESIGN.md section 3, C01).",
+            "note": COMMON_NOTE + " Partial claim: leaves only."},
+    "C14": {"category": "model_checking",
+            "text": "Roll-up of the argument-validation obligations discharged in other units: bind_label (invalid label id / section id / already bound -> specific error, nothing changed), "
+                    "relocate_to_base (missing base address, out-of-section entry -> error before any write), copy_section_data / copy_flattened_data (invalid section, destination too small -> "
+                    "error, all writes inside the destination), ConstPool::add (invalid size -> error, unchanged). Partial: the emit failure path and emitter state are not covered.",
+            "note": COMMON_NOTE},
+    "C15": {"category": "model_checking",
+            "text": "Roll-up of the allocation-failure obligations: malloc may return NULL (CBMC --malloc-may-fail --malloc-fail-null, or 'NULL or fresh' contracts) in Arena::_alloc_oneshot (NULL result, "
+                    "chain stays well-formed, bump pointer untouched), String::prepare (NULL result, string unchanged), ConstPool::add (kOutOfMemory, no NULL dereference). Partial: CodeHolder growth "
+                    "paths, JitAllocator, builder/compiler passes are not covered; 'repeat after failure gives identical code' is not decided.",
+            "note": COMMON_NOTE},
+    "C16": {"category": "model_checking",
+            "text": "Arena::reset (hard: constructed state, every block freed exactly once, no pooled slot or dynamic block survives; soft: rewound to the first block, chain kept) and the reuse of a "
+                    "soft-reset chain by Arena::_alloc_oneshot (no link to a freed block) are verified for bounded chains. Partial: CodeHolder::reset/reinit, emitters, ConstPool/JitAllocator reset "
+                    "are not yet under contract.",
+            "note": COMMON_NOTE},
+})
 NOT_APPLICABLE = {
     "C05": "whole-program semantic preservation of register allocation is a relational property over unbounded CFGs and an ISA semantics; no per-function contract in reach of CBMC expresses it",
     "C08": "byte equality of two emitters over all call sequences is a relational history property through virtual emitter interfaces and the whole assembler; not expressible as function contracts here",
     "C11": "quantifies over thread schedules; CBMC's contract instrumentation (dfcc) is sequential and has no thread model",
     "C12": "the oracle is the physical CPU / ISA database; a contract would need a formal semantics of ~1800 instructions",
     "C13": "agreement of validator, encoder and database over all forms needs _emit (4400 lines of goto-structured dispatch) and the generated tables as one relational statement; out of reach of the lowering/CBMC",
+    "C02": "the AArch64 immediate / MOV-sequence / LMH encoders are proved under C17 (same units); everything else the property quantifies over (Assembler::_emit dispatch, register field packing, instruction tables) is outside the lowering/CBMC reach, so no separate claim is made",
     "C20": "needs a grammar oracle for assembler text and unbounded string/snprintf/division reasoning that CBMC cannot discharge; no contract within reach decides it",
 }
